@@ -50,3 +50,18 @@ package main
 //@   requires[max; C19] forall i int :: 0 <= i && i < len(cfg.srcCols) ==> 0 <= cfg.srcCols[i] && cfg.srcCols[i] <= maxCsvIdx
 //@   modifies txn, storeState, ioFailed, walFlushes, entryCount, seq, rowsApplied, allelems(string), all(sql.InsertColumnsAndSource.QueryExpression)
 //@   loop 1 invariant txn == 0
+
+// colDataTypes: one type per destination column, in the order of the column list; a column that the catalog query did
+// not return is an error, never a default type. The schema query itself (fmt.Sprintf, the parser's result) is not modelled, and EvaluateSelect has no
+// clause on the shape of its rows: the type assertions, the two row.Vals indexes and the row dereference are excluded and listed.
+//@ func colDataTypes(rm engine.RelationManager, table string, dstCols []string) ([]storage.DataType, error)
+//@   props C19
+//@   requires txn == 0 && nonNilPtr(rm)
+//@   modifies txn, storeState, ioFailed, all(storage.Row.Vals), all(storage.Field.Column), allelems(any), allelems(*storage.Row)
+//@   ensures[len; C19] err == nil && result0 != nil ==> len(result0) == len(dstCols) && fresh(result0)
+//@   allowpanic assert
+//@   allowpanic index
+//@   allowpanic nil
+//@   loop 1 invariant (tl.tokens == nil || fresh(tl.tokens)) && sql.tsOK(ts)
+//@   loop 1 decreases sql.tsMeasure(ts)
+//@   loop 3 invariant len(tokens) == len(dstCols) && fresh(tokens)
